@@ -160,6 +160,14 @@ def find_reads(x, B):
             r = abs_range(t.args[0].args[1], B)
             if r is not None:
                 out[t] = Read(t, t.args[0].args[0], t.args[1], r[0], r[1])
+        elif t.op == 'index' and isinstance(t.args[1], int) and \
+                t.args[1] >= 0 and T.typeof(t.args[0]) == {'bytes'}:
+            # buffer[k]: one unsigned octet
+            from .layout import abs_range
+            r = abs_range(t.args[0], B)
+            if r is not None:
+                lo = T.add(r[0], t.args[1])
+                out[t] = Read(t, 'B', 0, lo, list(r[1]) + [T.add(lo, 1)])
     return out
 
 
@@ -344,7 +352,45 @@ def pair(E, D, skip_prefix=0, reach=None):
             continue
         res.extend(_pair_path(ep, segs, D, reach))
         res.extend(_type_clause(ep, D))
+    res.extend(_domain_clause(E))
     return res
+
+
+def _domain_clause(E):
+    """Pair clause (6): an encoder that writes its integer argument into
+    one fixed-width field accepts every integer of that field's range (the
+    wire type's domain) - a value the explicit guards of every return path
+    exclude can never be encoded, so it cannot round-trip.  The accepted
+    set is an over-approximation (guards that are not interval-shaped count
+    as 'any value'), so a reported gap is a definite refusal."""
+    from . import isets
+    P = E.P
+    if not E.paths or not isinstance(P, Sym):
+        return []
+    rng = None
+    accept = isets.ISet.empty()
+    for p in E.paths:
+        flds = [s_ for s_ in p.segs if s_.kind == 'fld']
+        if len(p.segs) != 1 or len(flds) != 1 or \
+                flds[0].fkind != 'int' or flds[0].operand != ('value',):
+            return []
+        r = fmt_range(flds[0])
+        if rng is not None and r != rng:
+            return []
+        rng = r
+        a_ = isets.ISet.all()
+        for a in p.kn.atoms:
+            if isinstance(a, Sym) and not isets.is_type_atom(a):
+                a_ = a_.inter(isets.superset(a, P))
+        if p.range is not None:
+            a_ = a_.inter(isets.ISet.range(*p.range))
+        accept = accept.union(a_)
+    missing = isets.ISet.range(*rng).minus(accept)
+    return [('domain', missing.is_empty(),
+             'every integer of [%d, %d] has a return path' % rng
+             if missing.is_empty() else
+             'integers %r of the field range [%d, %d] are refused by the '
+             'encoder\'s own guards' % (missing, rng[0], rng[1]))]
 
 
 _TYPE_COMPAT = {'struct_time': 'datetime'}
